@@ -106,11 +106,11 @@ CLAIMS = {
         'note': TRUST + '; obligations that cannot be established for every position of a sweep are reported as violations',
     },
     'C09': {
-        'technique': 'static analysis: symbolic extraction of the sub-step schedule and comparison with its reversal; canonical-form intervals',
+        'technique': 'static analysis: symbolic extraction of the sub-step schedule and comparison with its reversal; canonical-form intervals; must-pass-through over the exits of the local steps',
         'text': 'Decides the structural reason for reversibility: for every L the schedule of local steps of one time step of '
                 'both integrators (kind, position affine in the loop variable, rational step fraction) is a palindrome (compared in a normal form that does not depend on how the source cuts the sequence into loops), every position receives step fractions summing to one time step also for L = 1 and L = 2, and '
                 'the split direction keeps every step at the orthogonality centre; the reported norm is the factor of the initial '
-                'normalisation of the input; Krylov support rules as C08.  Exactness on a complete manifold and the size of the '
+                'normalisation of the input; every exit of the two local step functions returns the result of expm_krylov with time argument -dt (must-pass-through; only an exit guarded by dt == 0 may hand the input back); Krylov support rules as C08.  Exactness on a complete manifold and the size of the '
                 'reversibility defect are numerical and not decided.',
         'design_ref': 'DESIGN.md 4.3, 5 (C09)',
         'note': TRUST,
@@ -161,7 +161,7 @@ CLAIMS = {
                 'restricts u, s, v and q along the intermediate axis; the three routines never write their inputs (an '
                 'in-place normalisation of the singular values is reported); split_mps_tensor distributes the singular '
                 'values with total exponent 1 in all three modes, with the right charge orientation, and merging undoes the '
-                'split; the truncation rule clause by clause (relative weights, ascending accumulation across sectors, strict comparison, callers pass the singular values themselves).  The error identity and the tolerance bound as numerical statements are not decided.',
+                'split; the truncation rule clause by clause (relative weights that sum to one, ascending accumulation across sectors, strict comparison, callers pass the singular values themselves).  The error identity and the tolerance bound as numerical statements are not decided.',
         'design_ref': 'DESIGN.md 4.5, 4.4, 4.1, 5 (C12)',
         'note': TRUST,
     },
